@@ -73,6 +73,9 @@ func (m c12) Run(ctx *core.Ctx) {
 				if op.Name == "sp.rewrite" {
 					op.Args = op.Args[:2]
 				}
+				if r.IntN(25) == 0 {
+					op = sOp(gen.Pick(r, []string{"sp.iterpanic", "sp.iternested"}), gen.SPName(r), gen.SPString(r))
+				}
 				if op.Name == "sp.iterate" {
 					op = sOp("sp.append", gen.SPName(r), gen.SPString(r))
 				}
@@ -337,6 +340,35 @@ func (c12) Exec(ctx *core.Ctx, cs *core.Case) {
 				pan = ctx.Call(256, func() { h.Sort() })
 			case "sp.sortabs":
 				pan = ctx.Call(256, func() { h.SortAbsolute() })
+			case "sp.iterpanic":
+				// the caller's callback panics and the caller recovers: the handle must go on working
+				func() {
+					defer func() { _ = recover() }()
+					h.Iterate(func(p *url.NameValuePair) { panic("callback") })
+				}()
+				ctx.Count("callback_panics_recovered")
+				continue // nothing was mutated: the relations are judged again after the next real mutation
+			case "sp.iternested":
+				// the callback itself mutates the list (first pair only); inside the callback the URL must
+				// already follow the list
+				nestedBad := ""
+				pan = ctx.Call(opBytes(op)+len(u.Query())+256, func() {
+					first := true
+					h.Iterate(func(p *url.NameValuePair) {
+						if !first {
+							return
+						}
+						first = false
+						h.Append(op.Arg(0), op.Arg(1))
+						if q, want := u.Query(), h.String(); q != want && nestedBad == "" {
+							nestedBad = fmt.Sprintf("inside the callback: Query=%q list=%q", q, want)
+						}
+					})
+				})
+				if pan == nil && nestedBad != "" {
+					ctx.Violate("after a SearchParams mutation made inside an Iterate callback the URL's query differs from the list's serialization", "equal", nestedBad, where)
+					return
+				}
 			case "sp.rewrite":
 				pan = ctx.Call(opBytes(op)+len(u.Query())+256, func() {
 					h.Iterate(func(p *url.NameValuePair) {
